@@ -1,9 +1,76 @@
 import Olla.Driver.Util
+import Olla.Driver.C06
+import Olla.Model.Catalogue
+import Olla.Spec.C20
 
 namespace Olla.Driver.C20
-open Lean Olla.Driver
+open Lean Olla.Driver Olla.Model.Catalogue Olla.Spec.C20
 
-/-- placeholder until the C20 driver is written -/
-def main : IO Unit := pure ()
+def guardOk (g : Json) : Bool := ended (jstr (jget g "panic") != "") (jbool (jget g "timeout"))
+
+def insertStr (x : String) : List String → List String
+  | [] => [x]
+  | y :: ys => if x ≤ y then x :: y :: ys else y :: insertStr x ys
+def sortStr (l : List String) : List String := l.foldr insertStr []
+
+def f64OfClass : String → F64
+  | "nan" => .nan | "+inf" => .posInf | "-inf" => .negInf | "big+" => .bigPos | "big-" => .bigNeg | _ => .normal
+def outName : F32Out → String
+  | .zero => "zero" | .maxPos => "max+" | .maxNeg => "max-" | .same => "same" | .nonfinite => "nonfinite"
+
+def handle (j : Json) : IO Unit := do
+  let case := jnat (jget j "case")
+  let impl := jget j "impl"
+  match jstr (jget j "kind") with
+  | "parse" =>
+    let ok := guardOk (jget impl "guard")
+    let names := jstrList (jget impl "names")
+    -- a parser that returns a nameless or nil entry would poison the catalogue downstream
+    let clean := names.all (fun n => n != "" && n != "<nil>") || jbool (jget impl "err")
+    emit case true (ok && clean) (s!"parse.{jstr (jget j "how")}." ++ (if jbool (jget impl "err") then "err" else if names.isEmpty then "empty" else "models"))
+      (if !ok then "parser-panic-or-hang" else if !clean then "parser-returns-nameless-model" else "") (if ok && clean then "" else s!"profile {jstr (jget j "profile")}: {(jget impl "guard").compress} names {names}")
+  | "discover" =>
+    if jstr (jget impl "setup_err") != "" then emit case false true "setup-error" "" (jstr (jget impl "setup_err")); return
+    let rounds := (jarr (jget j "rounds")).map (fun r => (jstr (jget r "class"), jstrList (jget r "names")))
+    let obs := jarr (jget impl "obs")
+    let step := fun (st : List String × Bool × Bool × String) (x : (String × List String) × Json) =>
+      let (cur, agree, spec, note) := st
+      let ((cls, names), o) := x
+      let (next, err) := discover cur (outcomeOfClass cls names)
+      let got := jstrList (jget o "names")
+      let gotErr := jbool (jget o "err")
+      let a := sortStr next == got && err == gotErr
+      -- spec on the implementation's own before/after: `cur` here is the model's, so use the previous observation instead
+      let s := guardOk (jget o "guard") && consistent got (jnat (jget o "stats_models"))
+      (next, agree && a, spec && s, if (!a || !s) && note == "" then s!"round {cls} {names}: registry {got} err {gotErr} stats {jnat (jget o "stats_models")}; model {sortStr next} err {err}" else note)
+    let (_, agree, spec1, note) := (rounds.zip obs).foldl step ([], true, true, "")
+    -- errorKeeps on consecutive observations of the implementation
+    let pairs := obs.zip (obs.drop 1)
+    let keeps := pairs.all (fun (a, b) => errorKeeps (jstrList (jget a "names")) (jstrList (jget b "names")) (jbool (jget b "err")))
+    let spec := spec1 && keeps
+    let classes := String.intercalate "," (rounds.map (·.1))
+    emit case agree spec s!"discover.{classes}" (if spec then "" else if !keeps then "failed-listing-changed-the-catalogue" else "catalogue-inconsistent-after-listing") note
+  | "metrics" =>
+    let ok := guardOk (jget impl "guard")
+    let fin := jbool (jget impl "finite")
+    emit case true (ok && fin) (s!"metrics.{jstr (jget j "how")}." ++ (if jbool (jget impl "nil") then "nil" else "values"))
+      (if !ok then "metrics-extractor-panic-or-hang" else if !fin then "metrics-not-finite" else "") (if ok && fin then "" else s!"{jstr (jget j "provider")}: tps {jstr (jget impl "tps")} {(jget impl "guard").compress}")
+  | "clamp32" =>
+    let v := (jstr (jget j "in")).toInt?.getD 0
+    let out := (jstr (jget impl "out")).toInt?.getD 0
+    let m := safeInt32 v
+    emit case (m == out) (minInt32 ≤ out && out ≤ maxInt32) (if v < minInt32 then "clamp32.low" else if v > maxInt32 then "clamp32.high" else "clamp32.id")
+      (if minInt32 ≤ out && out ≤ maxInt32 then "" else "int32-clamp-out-of-range") s!"SafeInt32({v}) = {out}, model {m}"
+  | "clampf" =>
+    let m := safeFloat32 (f64OfClass (jstr (jget j "in_class")))
+    let out := jstr (jget impl "out_class")
+    emit case (outName m == out) (out != "nonfinite") s!"clampf.{jstr (jget j "in_class")}" (if out != "nonfinite" then "" else "float-clamp-not-finite") s!"SafeFloat32({jstr (jget j "in_class")}) -> {out}, model {outName m}"
+  | "xlate" =>
+    let ok := guardOk (jget impl "guard")
+    emit case true ok (s!"xlate.{jstr (jget j "how")}." ++ (if jbool (jget j "stream") then "stream" else "resp"))
+      (if ok then "" else "translator-panic-or-hang") (if ok then "" else s!"{(jget impl "guard").compress} {jstr (jget impl "outcome")}")
+  | k => emit case false true "unknown-kind" "" k
+
+def main : IO Unit := do forLines (← IO.getStdin) handle
 
 end Olla.Driver.C20
